@@ -334,7 +334,8 @@ _CONT_TMPL = '''def %(name)s(%(args)s):
 #   path: 'pydict_next' (optimised dict loop over PyDict_Next), 'generic' (the container's own iterator), 'opt' (other optimised loop)
 _X = "    x = 99\n"
 _KV = "    k = 99\n    v = 99\n"
-_XS = "    x = 'c'\n"                       # str loops: a str before the loop (an int would make Cython infer a C integer)
+_XS = "    x = 'c'\n"                       # str loops: a str before the loop (an int before it: variant st_t_isent, the
+#                                           target then is a Python object: find_spanning_type does not merge Py_UCS4 with numbers)
 _KVS = "    k = 99\n    v = 'c'\n"
 _XO = "    cdef object x = 99\n"
 CONT_VARIANTS = {
